@@ -92,20 +92,22 @@ pub(crate) fn read_data_block<T: Read + Seek>(
 
 /// A fixed version of read_data_block accounting for differing compressed block sizes in ZiPatch files.
 pub(crate) fn read_data_block_patch<T: Read + Seek>(mut buf: T) -> Option<Vec<u8>> {
-    let block_header = BlockHeader::read(&mut buf).unwrap();
+    let block_header = BlockHeader::read(&mut buf).ok()?;
 
     match block_header.compression {
         CompressionMode::Compressed {
             compressed_length,
             decompressed_length,
         } => {
-            let compressed_length: usize =
-                ((compressed_length as usize + 143) & 0xFFFFFF80) - (block_header.size as usize);
+            let compressed_length: usize = ((usize::try_from(compressed_length).ok()? + 143)
+                & 0xFFFFFF80)
+                .checked_sub(block_header.size as usize)?;
 
             let mut compressed_data: Vec<u8> = vec![0; compressed_length];
             buf.read_exact(&mut compressed_data).ok()?;
 
-            let mut decompressed_data: Vec<u8> = vec![0; decompressed_length as usize];
+            let mut decompressed_data: Vec<u8> =
+                vec![0; usize::try_from(decompressed_length).ok()?];
             if !no_header_decompress(&mut compressed_data, &mut decompressed_data) {
                 return None;
             }
@@ -113,13 +115,16 @@ pub(crate) fn read_data_block_patch<T: Read + Seek>(mut buf: T) -> Option<Vec<u8
             Some(decompressed_data)
         }
         CompressionMode::Uncompressed { file_size } => {
-            let new_file_size: usize = (file_size as usize + 143) & 0xFFFFFF80;
+            let file_size = usize::try_from(file_size).ok()?;
+            let new_file_size: usize = (file_size + 143) & 0xFFFFFF80;
 
-            let mut local_data: Vec<u8> = vec![0; file_size as usize];
+            let mut local_data: Vec<u8> = vec![0; file_size];
             buf.read_exact(&mut local_data).ok()?;
 
             buf.seek(SeekFrom::Current(
-                (new_file_size - block_header.size as usize - file_size as usize) as i64,
+                new_file_size
+                    .checked_sub(block_header.size as usize)?
+                    .checked_sub(file_size)? as i64,
             ))
             .ok()?;
 
